@@ -134,8 +134,10 @@ def loaded_pass(ctx):
         for h in range(n):
             rng = common.sub_rng(ctx.seed, 'C11', 'loaded', h)
             sp = models.gen_mmspec(rng, h)
-            for f in sp.feats:
-                f['id'] = False                       # positional fragments (ids are C08's business)
+            keep_ids = h % 3 == 0
+            if not keep_ids:
+                for f in sp.feats:
+                    f['id'] = False                   # positional fragments only
             m = models.gen_model(rng, sp, nobj=rng.randint(4, 10), values='safe')
             fmt = 'xmi' if h % 2 == 0 else 'json'
             rset = ResourceSet()
@@ -180,6 +182,26 @@ def loaded_pass(ctx):
                         return ('resolve-raised', f'resolve({fr!r}) raised {type(e).__name__}: {str(e)[:80]}')
                     if got is not o:
                         return ('resolve-wrong', f'resolve({fr!r}) is another object ({getattr(got, "eURIFragment", lambda: got)()})')
+                # "... and for ids after a load": an object whose class has an id attribute with a value that no other
+                # object of the document carries is found by the text of that value
+                if keep_ids and step == 'loaded':
+                    byid = {}
+                    for o in objs():
+                        ida = next((a for a in o.eClass.eAllAttributes() if a.iD), None)
+                        if ida is None or o.eGet(ida) is None or o.eGet(ida) == ida.get_default_value():
+                            continue
+                        byid.setdefault(ida._eType.to_string(o.eGet(ida)), []).append(o)
+                    for text, os_ in byid.items():
+                        if len(os_) != 1 or not text or text.startswith('/') or any(c in text for c in ' #'):
+                            continue
+                        ctx.evaluations += 1
+                        ctx.count('loaded/id-lookups')
+                        try:
+                            got = res2.resolve(text)
+                        except Exception as e:
+                            return ('id-resolve-raised', f'resolve({text!r}) (the id of a loaded object) raised {type(e).__name__}: {str(e)[:60]}')
+                        if got is not os_[0]:
+                            return ('id-resolve-wrong', f'resolve({text!r}) is not the loaded object that carries this id')
                 return None
             problem = judge('loaded')
             for step in range(8):
@@ -330,6 +352,75 @@ def metamodel_pass(ctx):
                 ctx.diverge(f'metamodel case {tag}: {what}: model `{got}` vs implementation `{want}` (`{line}`)', {'case': list(tag)})
 
 
+def id_lookup_pass(ctx):
+    """ids after a load, for id attributes of every textual type: each loaded object is found by the text of its id, in
+    XMI and in JSON, and a reference written by id reaches it"""
+    import os, shutil, tempfile
+    from pyecore import ecore as E
+    from pyecore.resources import ResourceSet, URI
+    from pyecore.resources.json import JsonResource
+    types = [(E.EString, ['k1', 'k2', 'k3']), (E.EInt, [12, 7, 300]), (E.ELong, [2 ** 40, 5, 6]), (E.EDouble, [1.5, 2.25, 3.0]),
+             (E.EBoolean, [True])]
+    tmp = tempfile.mkdtemp(prefix='verif_c11_')
+    try:
+        for k in range(20 if ctx.quick() else 200):
+            rng = common.sub_rng(ctx.seed, 'C11', 'id-lookup', k)
+            t, vals = types[k % len(types)]
+            fmt = 'xmi' if (k // len(types)) % 2 == 0 else 'json'
+            pk = E.EPackage('idp', f'http://verif/c11/id{k}', 'idp')
+            A = E.EClass('A')
+            pk.eClassifiers.append(A)
+            A.eStructuralFeatures.extend([E.EAttribute('key', t, iD=True), E.EReference('kids', A, upper=-1, containment=True),
+                                          E.EReference('ref', A)])
+
+            def rs():
+                r = ResourceSet()
+                r.resource_factory['json'] = lambda uri: JsonResource(uri)
+                r.metamodel_registry[pk.nsURI] = pk
+                return r
+            root = A()
+            objs = [A(key=v) for v in vals]
+            root.kids.extend(objs)
+            root.ref = rng.choice(objs)
+            path = os.path.join(tmp, f'id{k}.{fmt}')
+            res = rs().create_resource(URI(path))
+            res.append(root)
+            try:
+                res.save()
+                lr = rs().get_resource(URI(path))
+                lroot = lr.contents[0]
+            except Exception:
+                ctx.count('id-lookup/setup-raised')
+                continue
+            ctx.count(f'id-lookup/{fmt}/{t.name}')
+            ctx.nontriv(('id-lookup', k))
+            problem = None
+            for o in lroot.kids:
+                text = t.to_string(o.key)
+                ctx.evaluations += 1
+                try:
+                    got = lr.resolve(text)
+                except Exception as e:
+                    got = f'raised {type(e).__name__}'
+                if got is not o:
+                    problem = f'resolve({text!r}) gives {got if isinstance(got, str) else "another object"}, not the loaded object whose id is {o.key!r}'
+                    break
+            if not problem:
+                try:
+                    tgt = lroot.ref
+                    ok = tgt is not None and any(tgt.key == o.key and (tgt is o or getattr(tgt, "_wrapped", None) is o) for o in lroot.kids)
+                except Exception as e:
+                    ok = False
+                if not ok:
+                    problem = 'the reference written by id does not reach the loaded object of that id'
+            if problem:
+                ctx.violate({'clause': 'id-resolve', 'format': fmt, 'type': t.name},
+                            f'id-resolve ({fmt}, id attribute of type {t.name}): {problem}', {'id_lookup': k, 'format': fmt, 'type': t.name})
+                return
+    finally:
+        shutil.rmtree(tmp, ignore_errors=True)
+
+
 def failed_load_pass(ctx):
     """a resource whose own load() was refused half-way (created with create_resource, then load() raises on a broken
     reference at the end of the document) and that is then filled and edited: fragments resolve as for any other"""
@@ -411,6 +502,7 @@ def failed_load_pass(ctx):
 def run(ctx):
     common.use_repo()
     failed_load_pass(ctx)
+    id_lookup_pass(ctx)
     n = 250 if ctx.quick() else 4000
     nops = 25 if ctx.quick() else 40
     ctx.rule = (f'{n} containment-heavy histories (<= {nops} ops: insert/remove/pop/move at all positions, 1-3 resources, roots '
